@@ -132,7 +132,8 @@ pub fn run(pool: &Pool, sc: &Value) -> Value {
         std::fs::create_dir_all(&dp).unwrap();
         for f in d["files"].as_array().unwrap() {
             let id = keyid_of(pool, &f["prefix_of"]);
-            let fname = dp.join(format!("{}.{}.link", f["step"].as_str().unwrap(), &id[0..8]));
+            let short = f["short_raw"].as_str().map(|x| x.to_string()).unwrap_or_else(|| id[0..8].to_string());
+            let fname = dp.join(format!("{}.{}.link", f["step"].as_str().unwrap(), short));
             if !f["parsable"].as_bool().unwrap_or(true) {
                 std::fs::write(&fname, "this is not json").unwrap();
                 continue;
